@@ -415,6 +415,21 @@ func genC08(r *world.Rng, w *world.World, big bool) {
 		if r.Bool(0.2) {
 			t.Text2 = "nonl"
 		}
+		// stream faults of the reader entry: the stream fails part-way through the certificate; a line
+		// stretched across the scanner's buffer sizes or beyond the longest line it takes
+		if t.Entry == "unsat-reader" && len(t.Lines) > 0 && r.Bool(0.2) {
+			total := 0
+			for _, ln := range t.Lines {
+				total += len(ln) + 1
+			}
+			t.FailAt = r.Range(1, total)
+		}
+		if len(t.Lines) > 0 && r.Bool(0.08) {
+			t.Pad = []int{r.Intn(len(t.Lines)), r.Pick(4090, 4096, 4100, 8192, 12000, 66000, 70000)}
+			if big {
+				t.Pad[1] = r.Pick(4096, 65535, 65536, 66000, 131072)
+			}
+		}
 	}
 	w.Tasks = []world.TaskSpec{t}
 	knobs(r, w)
